@@ -73,6 +73,9 @@ macro_rules! bodies {
             use super::*;
             crate::width_prelude!($t, $s, $r, $rs, $d);
 
+            /// `funding_market(1)` uses the concrete exponent 1*UNIT (instead of {0, 1*UNIT} symbolic).
+            pub const CONCRETE_UNIT_EXPONENT_WHEN_ONE: bool = false;
+
             pub fn flat_valid_prices() -> Prices<T> {
                 flat_prices(1, 1, 1)
             }
@@ -91,6 +94,10 @@ macro_rules! bodies {
                     threshold_for_stable_funding: kani::any(),
                     threshold_for_decrease_funding: kani::any(),
                 };
+                if max_exp_units == 1 && CONCRETE_UNIT_EXPONENT_WHEN_ONE {
+                    // a single exponent value is passed concretely (prunes the other exponent paths in symex)
+                    m.funding.exponent = UNIT as T;
+                }
                 let e = u(m.funding.exponent);
                 kani::assume(e % UNIT == 0 && e / UNIT <= max_exp_units);
                 m.funding_factor_per_second = kani::any();
@@ -308,7 +315,21 @@ macro_rules! bodies {
             /// One real `UpdateFundingState::execute` from an arbitrary funding state: the four
             /// funding-per-size and the four claimable-funding-per-size indices never decrease.
             pub fn execute_indices_only_grow(fixed_adjustment: Option<T>) {
+                execute_indices_only_grow_mode(fixed_adjustment, None)
+            }
+            /// `adaptive`: Some(false) fixes increase_factor_per_second = 0 (non-adaptive mode), Some(true)
+            /// assumes it non-zero, None leaves it symbolic.
+            pub fn execute_indices_only_grow_mode(fixed_adjustment: Option<T>, adaptive: Option<bool>) {
                 let mut mk = funding_market(1);
+                if fixed_adjustment.is_some() {
+                    // cheaper variants: exponent exactly 1*UNIT, passed concretely
+                    mk.funding.exponent = UNIT as T;
+                }
+                match adaptive {
+                    Some(false) => mk.funding.increase_factor_per_second = 0,
+                    Some(true) => kani::assume(mk.funding.increase_factor_per_second != 0),
+                    None => {}
+                }
                 mk.open_interest = Side2 { long: VPool::any(), short: VPool::any() };
                 mk.funding_amount_per_size = Side2 { long: VPool::any(), short: VPool::any() };
                 mk.claimable_funding_amount_per_size = Side2 { long: VPool::any(), short: VPool::any() };
@@ -472,7 +493,7 @@ fn c12_next_factor_exact_ref_u16() {
 
 //@ prop=C12 tier=quick kind=hold
 //@ enc=UpdateFundingState::{execute,next_funding_amount_per_size,next_funding_factor_per_second,set_deltas}, pack_to_funding_amount_per_size, PerpMarketMutExt::{update_funding,apply_delta_to_funding_amount_per_size,apply_delta_to_claimable_funding_amount_per_size}, Prices::validate
-//@ bound=width-reduced T=u8, DECIMALS=1: every u8 open-interest pool, funding index pool, funding parameter, price (validity decided by the code), i8 stored factor, u64 elapsed time; funding adjustment fixed to 1 (a program constant); exponent in {0, 1*UNIT}; one execution from an arbitrary state (P2 step)
+//@ bound=width-reduced T=u8, DECIMALS=1: every u8 open-interest pool, funding index pool, funding parameter, price (validity decided by the code), i8 stored factor, u64 elapsed time; funding adjustment fixed to 1 (a program constant); exponent 1*UNIT; one execution from an arbitrary state (P2 step)
 //@ stubs=market environment = plain-struct VMarket; the funding clock is the field passed_funding
 #[kani::proof]
 #[kani::unwind(5)]
@@ -517,4 +538,15 @@ fn c12_pending_funding_fees_exact_u16() {
 #[kani::proof]
 fn c12_pending_funding_fees_any_adjustment_u16() {
     w16::pending_funding_fees(None);
+}
+
+#[kani::proof]
+#[kani::unwind(5)]
+fn probe_c12_exec_nonadaptive() {
+    w8::execute_indices_only_grow_mode(Some(1), Some(false));
+}
+#[kani::proof]
+#[kani::unwind(5)]
+fn probe_c12_exec_adaptive() {
+    w8::execute_indices_only_grow_mode(Some(1), Some(true));
 }
